@@ -28,6 +28,19 @@ def run(ctx):
         return
     n = ctx.scale(500, 8000)
     pool = runlib.program_pool(ctx, n, n_unknown=ctx.scale(30, 200), flags_for_guards=(0, FLAG["NEW_COST_MODEL"]))
+    # directed: a GC-candidate operator (apply, opcode 2) whose result is a post-checkpoint HEAP atom
+    # with small-integer bytes (made by concat / substr), after >= 1 KiB of garbage so that the
+    # restore is worth taking: maybe_restore_with_node clones it through new_atom and must re-credit
+    # the counters
+    from gen_prog import op, q, i2a
+    junk = op(14, q(bytes([0x61]) * 700), q(bytes([0x62]) * 700))
+    for E in (op(14, q(i2a(1)), q(i2a(2))), op(14, q(b"\x00"), q(b"\x80")), op(14, q(b""), q(b"")),
+              op(12, q(b"\x01\x02\x03\x04\x05\x06\x07\x08\x09"), q(b""), q(i2a(1))),
+              op(12, q(b"\x01\x02\x03\x04\x05\x06\x07\x08\x09"), q(i2a(2)), q(i2a(2))),
+              op(14, q(bytes([7]) * 30), q(bytes([8]) * 30)), op(16, q(i2a(1)), q(i2a(2)))):
+        body = op(5, op(4, E, junk))
+        pool.append((gen.tt(op(2, q(body), q(b""))), gen.tt(b""), "directed-gc-small"))
+        pool.append((gen.tt(op(4, op(2, q(body), q(b"")), op(2, q(body), q(b"")))), gen.tt(b""), "directed-gc-small"))
     pairs = []
     for p, e, tag in pool:
         f = runlib.pick_flags(r, tag, 0.15, exclude=FLAG["ENABLE_GC"])
